@@ -1,6 +1,9 @@
 package xch
 
 import (
+	"crypto/sha256"
+	"encoding/hex"
+	"encoding/json"
 	"fmt"
 	"go/ast"
 	"go/parser"
@@ -36,6 +39,10 @@ type CorpusPkg struct {
 	// stage and of the handler are turned into responses by Handler.NewError - here the stub's, which returns
 	// a zero value. Statuses produced that way say nothing about ogen.
 	StubErrors bool `json:"stub_errors"`
+	// Ops: the operations (Handler methods) when the package also got the typed glue (client and server).
+	Ops []string `json:"ops,omitempty"`
+	// SpecSHA identifies the document the package was generated from.
+	SpecSHA string `json:"spec_sha,omitempty"`
 }
 
 const corpusConfig = "parser:\n  infer_types: true\n  allow_remote: true\ngenerator:\n  ignore_not_implemented: [\"all\"]\n"
@@ -61,14 +68,33 @@ func corpusSpecs(src string, maxSize int64, limit int) []string {
 	}
 	sort.Strings(out)
 	if limit > 0 && len(out) > limit {
-		// a spread over the list rather than its head
-		var pick []string
-		for i := 0; i < limit; i++ {
-			pick = append(pick, out[i*len(out)/limit])
+		// the documents written to cover ogen's features first, then a spread over the rest of the list
+		pick := map[string]bool{}
+		for _, p := range preferredSpecs {
+			for _, o := range out {
+				if o == p {
+					pick[o] = true
+				}
+			}
 		}
-		out = pick
+		for i := 0; i < limit; i++ {
+			pick[out[i*len(out)/limit]] = true
+		}
+		var sel []string
+		for _, o := range out {
+			if pick[o] {
+				sel = append(sel, o)
+			}
+		}
+		out = sel
 	}
 	return out
+}
+
+// preferredSpecs are in every tier: the repository's own feature-matrix documents.
+var preferredSpecs = []string{
+	"_testdata/positive/parameters.json", "_testdata/positive/http_requests.json", "_testdata/positive/http_responses.json",
+	"_testdata/positive/form.json", "_testdata/positive/sample.json",
 }
 
 var routeRe = regexp.MustCompile(`^\t// (GET|POST|PUT|DELETE|PATCH|HEAD|OPTIONS|TRACE) (/\S*)$`)
@@ -94,7 +120,7 @@ func prepareCorpus(s *build.Scratch, specs []string) ([]CorpusPkg, map[string]st
 			name := "c" + strings.Trim(nonIdent.ReplaceAllString(strings.ToLower(strings.TrimSuffix(filepath.Base(rel), filepath.Ext(rel))), "_"), "_")
 			target := filepath.Join(h, "cx", name)
 			_ = os.MkdirAll(target, 0o755)
-			r := s.Run(work, 0, nil, filepath.Join(s.Bin, "ogen"), "--config", "corpus.yml", "--target", target, "--package", "api", "--clean", filepath.Join(s.Src, rel))
+			r := s.Run(work, 0, nil, filepath.Join(s.Bin, "ogen"), "--config", "corpus.yml", "--target", target, "--package", "api", "--clean", specPath(s, rel))
 			mu.Lock()
 			defer mu.Unlock()
 			if r.Err != nil || r.Exit != 0 {
@@ -108,7 +134,17 @@ func prepareCorpus(s *build.Scratch, specs []string) ([]CorpusPkg, map[string]st
 				_ = os.RemoveAll(target)
 				return
 			}
-			pkgs = append(pkgs, CorpusPkg{Name: name, Spec: rel, Routes: routes, StubErrors: stubErrors})
+			cp := CorpusPkg{Name: name, Spec: rel, Routes: routes, StubErrors: stubErrors}
+			if ti, err := glueTyped(target); err == nil && ti != nil {
+				cp.Ops = ti.Ops
+			} else if err != nil {
+				skipped[rel+" (typed glue)"] = err.Error()
+			}
+			if b, err := os.ReadFile(specPath(s, rel)); err == nil {
+				h := sha256.Sum256(b)
+				cp.SpecSHA = hex.EncodeToString(h[:])
+			}
+			pkgs = append(pkgs, cp)
 		}(rel)
 	}
 	wg.Wait()
@@ -199,9 +235,9 @@ func glue(dir string) (_ []Route, hasServer, stubErrors bool, _ error) {
 		for _, m := range secMethods {
 			fmt.Fprintf(&sb, "func (simSec) %s {\n\treturn ctx, nil\n}\n\n", m)
 		}
-		sb.WriteString("// SimNewServer builds the server with the stub handler, an accept-all security handler and one middleware.\nfunc SimNewServer(mw Middleware) (http.Handler, error) {\n\treturn NewServer(UnimplementedHandler{}, simSec{}, WithMiddleware(mw))\n}\n")
+		sb.WriteString("// SimNewServer builds the server with the stub handler, an accept-all security handler and one middleware.\nfunc SimNewServer(mw ...Middleware) (http.Handler, error) {\n\treturn NewServer(UnimplementedHandler{}, simSec{}, WithMiddleware(mw...))\n}\n")
 	} else {
-		sb.WriteString("// SimNewServer builds the server with the stub handler and one middleware.\nfunc SimNewServer(mw Middleware) (http.Handler, error) {\n\treturn NewServer(UnimplementedHandler{}, WithMiddleware(mw))\n}\n")
+		sb.WriteString("// SimNewServer builds the server with the stub handler and one middleware.\nfunc SimNewServer(mw ...Middleware) (http.Handler, error) {\n\treturn NewServer(UnimplementedHandler{}, WithMiddleware(mw...))\n}\n")
 	}
 	return rs, true, stubErrors, os.WriteFile(filepath.Join(dir, "zz_sim_glue.go"), []byte(sb.String()), 0o644)
 }
@@ -211,6 +247,7 @@ func glue(dir string) (_ []Route, hasServer, stubErrors bool, _ error) {
 func weedCorpus(s *build.Scratch, pkgs []CorpusPkg, skipped map[string]string) ([]CorpusPkg, error) {
 	h := simbuild.HarnessDir(s)
 	ok := make([]bool, len(pkgs))
+	typedDropped := make([]string, len(pkgs))
 	var wg sync.WaitGroup
 	sem := make(chan struct{}, 8)
 	for i, p := range pkgs {
@@ -221,11 +258,23 @@ func weedCorpus(s *build.Scratch, pkgs []CorpusPkg, skipped map[string]string) (
 			defer func() { <-sem }()
 			r := s.Run(h, 0, nil, string(build.GoSim), "build", "./cx/"+p.Name)
 			ok[i] = r.Err == nil && r.Exit == 0
+			if tg := filepath.Join(h, "cx", p.Name, "zz_sim_typed.go"); !ok[i] && len(p.Ops) > 0 {
+				// the typed glue may be what does not compile (a shape it does not know): fall back to the raw driver
+				_ = os.Remove(tg)
+				r2 := s.Run(h, 0, nil, string(build.GoSim), "build", "./cx/"+p.Name)
+				if ok[i] = r2.Err == nil && r2.Exit == 0; ok[i] {
+					typedDropped[i] = tail(string(r.Stderr)+string(r.Stdout), 600)
+				}
+			}
 		}(i, p)
 	}
 	wg.Wait()
 	var keep []CorpusPkg
 	for i, p := range pkgs {
+		if typedDropped[i] != "" {
+			p.Ops = nil
+			skipped[p.Spec+" (typed glue)"] = "does not compile: " + typedDropped[i]
+		}
 		if ok[i] {
 			keep = append(keep, p)
 		} else {
@@ -238,13 +287,95 @@ func weedCorpus(s *build.Scratch, pkgs []CorpusPkg, skipped map[string]string) (
 	for _, p := range keep {
 		fmt.Fprintf(&sb, "\t%s \"simh/cx/%s\"\n", p.Name, p.Name)
 	}
-	sb.WriteString(")\n\n// servers maps a corpus package to its constructor.\nvar servers = map[string]func(middleware.Middleware) (http.Handler, error){\n")
+	sb.WriteString(")\n\n// servers maps a corpus package to its constructor.\nvar servers = map[string]func(...middleware.Middleware) (http.Handler, error){\n")
 	for _, p := range keep {
 		fmt.Fprintf(&sb, "\t%q: %s.SimNewServer,\n", p.Name, p.Name)
+	}
+	sb.WriteString("}\n\n// typedPkgs maps a corpus package to its typed glue.\nvar typedPkgs = map[string]*typedPkg{\n")
+	for _, p := range keep {
+		if len(p.Ops) > 0 {
+			fmt.Fprintf(&sb, "\t%q: {New: %s.SimTypedNew, Impls: %s.SimImpls, Ops: %s.SimOps},\n", p.Name, p.Name, p.Name, p.Name)
+		}
 	}
 	sb.WriteString("}\n")
 	if err := os.WriteFile(filepath.Join(h, "csim", "registry_gen.go"), []byte(sb.String()), 0o644); err != nil {
 		return nil, build.Toolf("%v", err)
 	}
 	return keep, nil
+}
+
+func specPath(s *build.Scratch, rel string) string {
+	if filepath.IsAbs(rel) {
+		return rel
+	}
+	return filepath.Join(s.Src, rel)
+}
+
+// derivedSpecs writes documents cut out of corpus documents that are too large to be compiled whole:
+// format_gen.json (every primitive format as query parameter, JSON request and JSON response) is reduced
+// to its three aggregate operations, and to fixed samples of its per-format operations. A derived document
+// is a pure function of the source document and the sample index.
+func derivedSpecs(s *build.Scratch, samples int) []string {
+	src := filepath.Join(s.Src, "_testdata/positive/format_gen.json")
+	b, err := os.ReadFile(src)
+	if err != nil {
+		return nil
+	}
+	var doc map[string]json.RawMessage
+	if json.Unmarshal(b, &doc) != nil {
+		return nil
+	}
+	var paths map[string]json.RawMessage
+	if json.Unmarshal(doc["paths"], &paths) != nil {
+		return nil
+	}
+	dir := filepath.Join(s.Dir, "genwork", "derived")
+	_ = os.MkdirAll(dir, 0o755)
+	var names []string
+	for k := range paths {
+		names = append(names, k)
+	}
+	sort.Strings(names)
+	write := func(name string, keep []string) string {
+		sub := map[string]json.RawMessage{}
+		for _, k := range keep {
+			if v, ok := paths[k]; ok {
+				sub[k] = v
+			}
+		}
+		if len(sub) == 0 {
+			return ""
+		}
+		d2 := map[string]json.RawMessage{}
+		for k, v := range doc {
+			d2[k] = v
+		}
+		d2["paths"], _ = json.Marshal(sub)
+		out, _ := json.Marshal(d2)
+		p := filepath.Join(dir, name+".json")
+		if os.WriteFile(p, out, 0o644) != nil {
+			return ""
+		}
+		return p
+	}
+	var out []string
+	if p := write("fmt_core", []string{"/test_query_parameter", "/test_request_FormatTest", "/test_response_FormatTest"}); p != "" {
+		out = append(out, p)
+	}
+	var rest []string
+	for _, k := range names {
+		if k != "/test_query_parameter" && k != "/test_request_FormatTest" && k != "/test_response_FormatTest" {
+			rest = append(rest, k)
+		}
+	}
+	for i := 0; i < samples && len(rest) > 0; i++ {
+		var keep []string
+		for j := i; j < len(rest); j += 17 { // every 17th operation, starting at i: 60 operations per sample
+			keep = append(keep, rest[j])
+		}
+		if p := write(fmt.Sprintf("fmt_s%02d", i), keep); p != "" {
+			out = append(out, p)
+		}
+	}
+	return out
 }
